@@ -370,6 +370,80 @@ pub fn run(ctx: &mut Ctx) -> (&'static str, String, bool) {
     }
     ctx.sample(json!({"mode": "compressed", "buffer": "00030000", "expectation": "size byte 0 announces an impossible length: framing error, no panic, nothing (or >= 4 bytes) removed"}));
     ctx.sample(json!({"mode": "uncompressed", "buffer": "0840000000090000", "expectation": "IS_CIM with sub-mode 9: packet or decode error after removing exactly 8 bytes"}));
+    // ---- the same hostile bytes arriving over a connection, in fragments: Framed::read must stay total too --------
+    {
+        use crate::transport::{runtime, Conn, Handle, Impl, RAct, ReadResult};
+        let n = ctx.tier.pick(3_000u64, 60_000u64);
+        let base = base_rng.fork(4242);
+        let parts: Vec<Part> = (0..n)
+            .into_par_iter()
+            .map(|i| {
+                let rt = runtime();
+                let _g = rt.enter();
+                let mut p = Part::new();
+                let mut r = base.fork(i);
+                let compressed = i % 2 == 0;
+                // a few valid frames, then a hostile tail: impossible size bytes, random bytes, a cut frame
+                let mut stream = vec![];
+                for _ in 0..r.usize_below(3) {
+                    let lay = r.pick(c.kinds());
+                    let o = GenOpts { text: TextMode::Ascii, max_list: Some(2), boundary: 4, hostile: false };
+                    if let Some((_, f)) = c.ref_frame(&mut r, lay, &o, compressed) {
+                        stream.extend(f);
+                    }
+                }
+                match r.below(4) {
+                    0 => stream.push(r.below(4) as u8), // a lone size byte 0..3
+                    1 => {
+                        stream.push(r.below(4) as u8);
+                        let k = r.usize_below(6);
+                        stream.extend(r.bytes(k));
+                    },
+                    2 => {
+                        let k = 1 + r.usize_below(40);
+                        stream.extend(r.bytes(k));
+                    },
+                    _ => {
+                        stream.push(255);
+                        let k = r.usize_below(8);
+                        stream.extend(r.bytes(k));
+                    },
+                }
+                let seg = [1usize, 1, 2, 3, 0][r.usize_below(5)];
+                let plan: Vec<RAct> = if seg == 0 { (0..stream.len()).map(|_| RAct::Bytes(1 + r.usize_below(5))).collect() } else { vec![] };
+                for which in [Impl::Blocking, Impl::Tokio] {
+                    p.evaluations += 1;
+                    p.distinct(&(which.name(), compressed, &stream, seg));
+                    let h = Handle::new(stream.clone(), plan.clone(), vec![]);
+                    h.with(|x| x.default_read = seg);
+                    let outcome = guarded(|| {
+                        let mut conn = Conn::new(which, &h, compressed, false);
+                        let mut results = vec![];
+                        for _ in 0..stream.len() + 8 {
+                            let x = conn.read(&h);
+                            let end = matches!(x, ReadResult::Disconnected);
+                            results.push(x);
+                            if end {
+                                break;
+                            }
+                        }
+                        results
+                    });
+                    if let Err(pn) = outcome {
+                        p.violation(
+                            format!("C04/framed/{}/panic/{}", which.name(), panic_site(&pn)),
+                            format!("{} {}: reading the byte stream {} in {}-byte fragments panicked: {pn}", which.name(), mode_name(compressed), hex(&stream[..stream.len().min(64)]), if seg == 0 { "random".to_string() } else { seg.to_string() }),
+                            json!({"impl": which.name(), "mode": mode_name(compressed), "stream": hex(&stream), "segment": seg}),
+                        );
+                    }
+                }
+                p
+            })
+            .collect();
+        for p in parts {
+            ctx.merge(p);
+        }
+    }
     // ---- the public framing rule itself: Mode::decode_length for every size byte x buffer lengths around it ------
     {
         use bytes::BytesMut;
@@ -423,7 +497,7 @@ pub fn run(ctx: &mut Ctx) -> (&'static str, String, bool) {
     ctx.assume("uncompressed announced lengths >= 4 that are not a multiple of 4 may be treated as a frame of that length or refused as a framing error: the statement does not choose");
     (
         "exploration",
-        "every (size,type) header pair x buffer lengths around the announced length x both modes; valid frames of every kind (reference-built and encoder-built) with every byte position set to every value, every truncation, extensions, bit flips, repeated elements (blocks of 4-40 bytes copied over their neighbours) and multi-byte text snippets (UTF-8, double-byte, markers) written over every offset; random and plausible-header random buffers; each decoded twice with different trailing bytes; distinct = distinct (mode, buffer)".into(),
+        "every (size,type) header pair x buffer lengths around the announced length x both modes; valid frames of every kind (reference-built and encoder-built) with every byte position set to every value, every truncation, extensions, bit flips, repeated elements (blocks of 4-40 bytes copied over their neighbours) and multi-byte text snippets (UTF-8, double-byte, markers) written over every offset; random and plausible-header random buffers; each decoded twice with different trailing bytes; hostile streams (impossible size bytes, garbage, cut frames) read through both connection types in 1-5 byte fragments under the panic monitor; distinct = distinct (mode, buffer)".into(),
         false,
     )
 }
